@@ -8,6 +8,7 @@ import (
 	"reflect"
 	"sort"
 	"strings"
+	"time"
 
 	"github.com/samsarahq/thunder/batch"
 	"github.com/samsarahq/thunder/sqlgen"
@@ -30,6 +31,37 @@ type Person struct {
 	Blob  []byte
 	// a column whose name is what joining the names "city" and "id" with an underscore gives
 	CityId int64 `sql:"city_id"`
+	// columns whose SQL value is not the Go value itself: a self-serialising type, an instant, a large unsigned number
+	Bin Pair `sql:",binary"`
+	At  time.Time
+	Big uint64
+}
+
+// Pair is stored through its binary marshalling.
+type Pair struct{ A, B byte }
+
+func (p Pair) MarshalBinary() ([]byte, error) { return []byte{p.A, p.B}, nil }
+func (p *Pair) UnmarshalBinary(b []byte) error {
+	if len(b) != 2 {
+		return fmt.Errorf("Pair: %d bytes", len(b))
+	}
+	p.A, p.B = b[0], b[1]
+	return nil
+}
+
+var (
+	t0     = time.Date(2020, 1, 2, 3, 4, 5, 0, time.UTC)
+	t1     = time.Date(2021, 1, 1, 0, 0, 0, 0, time.UTC)
+	plus2  = time.FixedZone("plus2", 2*3600)
+	bigVal = uint64(1)<<63 + 5
+)
+
+// extraCols gives the values of the three columns above for the row with this id.
+func extraCols(id int64) []driver.Value {
+	if id%2 == 1 {
+		return []driver.Value{[]byte{1, 2}, t0, int64(bigVal)}
+	}
+	return []driver.Value{[]byte{3, 4}, t1, int64(7)}
 }
 
 // Other is a second table sharing the batching context (shards must not mix).
@@ -87,6 +119,13 @@ func filters() []qspec {
 		{name: "row:nick=empty", f: sqlgen.Filter{"nick": ""}, row: true},
 		{name: "city_id=7", f: sqlgen.Filter{"city_id": int64(7)}},
 		{name: "city=sf,id=1", f: sqlgen.Filter{"city": "sf", "id": int64(1)}},
+		{name: "bin=Pair{1,2}", f: sqlgen.Filter{"bin": Pair{1, 2}}},
+		{name: "bin=&Pair{3,4}", f: sqlgen.Filter{"bin": &Pair{3, 4}}},
+		{name: "at=t0", f: sqlgen.Filter{"at": t0}},
+		{name: "at=t0(other zone)", f: sqlgen.Filter{"at": t0.In(plus2)}},
+		{name: "at=&t1", f: sqlgen.Filter{"at": &t1}},
+		{name: "big=2^63+5", f: sqlgen.Filter{"big": bigVal}},
+		{name: "big=7", f: sqlgen.Filter{"big": uint64(7)}},
 		{name: "city=empty", f: sqlgen.Filter{"city": ""}},
 		{name: "score=int32(0)", f: sqlgen.Filter{"score": int32(0)}},
 		{name: "city_id=0", f: sqlgen.Filter{"city_id": int64(0)}},
@@ -133,7 +172,7 @@ func newEnv(content int) *env {
 		fdb.AddTable(t)
 	}
 	for _, r := range contents[content] {
-		fdb.Tables["people"].Rows = append(fdb.Tables["people"].Rows, append([]driver.Value{}, r...))
+		fdb.Tables["people"].Rows = append(fdb.Tables["people"].Rows, append(append([]driver.Value{}, r...), extraCols(r[0].(int64))...))
 	}
 	fdb.Tables["others"].Rows = [][]driver.Value{{int64(1), "sf"}, {int64(2), "la"}}
 	return &env{fdb: fdb, db: sqlgen.NewDB(fdb.Open(), schema)}
@@ -392,5 +431,5 @@ func run(rp *explore.Report, tier string) {
 
 func init() {
 	reg.Register(&reg.Harness{Property: "C10", Name: "c10/sqlbatch", Level: "model_checking", Bounds: [2]int{1, 2}, Run: run, Item: parseItem,
-		Rule: fmt.Sprintf("4 table contents (duplicates + NULLs, single row, empty, NULL in columns of non-pointer Go type) x all pairs and a grid of triples of %d queries", len(filters())) + " (Query/QueryRow; filters on id, nullable column, string column, int32 column, implicitnull column (zero value = NULL), the zero value of a column holding NULLs, []byte column (nil), two columns, empty, nil; each value in the Go representations int / int64 / int32 / *int64 / named string / nil / typed nil pointer; a second table) run concurrently under one batch.WithBatching context (plus a grid of pairs whose SELECT stays in flight for a step, explored at bound 2 incl. an early wait-interval timer) over the real sqlgen.DB and an in-memory SQL driver with three-valued NULL logic, all schedules within the deviation bound; plus, for every filter, a query inside a transaction holding an uncommitted row next to a query outside it (the in-memory driver isolates reads); oracle: per query, rows (as a key multiset) and error kind equal the same query run alone without batching. non-trivial = executions in which the driver saw fewer statements than queries"})
+		Rule: fmt.Sprintf("4 table contents (duplicates + NULLs, single row, empty, NULL in columns of non-pointer Go type) x all pairs and a grid of triples of %d queries", len(filters())) + " (Query/QueryRow; filters on id, nullable column, string column, int32 column, implicitnull column (zero value = NULL), the zero value of a column holding NULLs, a binary-marshalled column, an instant (also in another time zone), an unsigned column beyond the int64 range, []byte column (nil), two columns, empty, nil; each value in the Go representations int / int64 / int32 / *int64 / named string / nil / typed nil pointer; a second table) run concurrently under one batch.WithBatching context (plus a grid of pairs whose SELECT stays in flight for a step, explored at bound 2 incl. an early wait-interval timer) over the real sqlgen.DB and an in-memory SQL driver with three-valued NULL logic, all schedules within the deviation bound; plus, for every filter, a query inside a transaction holding an uncommitted row next to a query outside it (the in-memory driver isolates reads); oracle: per query, rows (as a key multiset) and error kind equal the same query run alone without batching. non-trivial = executions in which the driver saw fewer statements than queries"})
 }
